@@ -67,6 +67,16 @@ impl RespParser {
             ]))));
         }
         
+        // A proper prefix of the raw "PING" may be the beginning of one that was split
+        // across reads: wait for the rest, so that the result does not depend on
+        // how the bytes were chunked
+        {
+            let rest = &self.buffer[self.position..];
+            if rest.len() < 4 && b"PING".starts_with(rest) {
+                return Ok(None);
+            }
+        }
+        
         // Handle normal RESP protocol
         match parse_frame(&self.buffer[self.position..])? {
             Some((frame, consumed)) => {
